@@ -1,6 +1,219 @@
 import Driver.Util
+import Sqfs.Model.Writer
+import Sqfs.Spec.Writer
+/-!
+Line protocol of the C14 model driver (`sqfsmodel c14`):
+
+* `verdict <hexfile>`            → `super=<0|-e> idstage=<0|-e|->` : `superRead`, `idTableStage` on a whole file
+* `head <hex of first ≤96 bytes> <filesize>` → same, for a file known only by its head and length
+* `prov <hex96>`                 → `1`/`0` : `isProvisional`
+* log mode: `W <off> <hex>` / `T <len>` accumulate (answer `.`), then
+  `shape`                        → `shape ok kfinal=<k> nops=<n>` | `shape bad nops=<n>`            (keeps the log)
+  `prefixes`                     → `prefixes <v0> <v1> … <vn>` : verdict of `image (take k ops)` for every k,
+                                    `r<e>` (rejected by superRead with error e), `i<e>` (rejected at the id-table
+                                    stage), `a` (passes both)                                           (keeps the log)
+  `monitor`                      → `monitor RRR…CC` : the specification predicate `Spec.Writer.statusOf` at every
+                                    crash point (R rejected, C complete up to padding, X neither = property violated)
+  `reset`                        → `ok`
+* script mode (in-process correspondence with `h_c14 <scratch> script`, same commands and answers):
+  `init`, `opts`, `blk`, `mnew`/`mapp`/`mflush`/`mwrite`/`mreset`, `table`, `idtable`, `fragtable`, `export`, `xattr`,
+  `final`, `pad`, `end` (→ `ops …`, the modelled system calls), see `scriptStep`.
+-/
 namespace Driver.C14
-/-- stub: the model driver for C14 is not built yet -/
+open Sqfs.Writer Sqfs.Consts
+
+def showExc : Except Nat Unit → String
+  | .ok _ => "0"
+  | .error e => s!"-{e}"
+
+def verdictStr (f : Bytes) : String :=
+  match superRead f with
+  | .error e => s!"super=-{e} idstage=-"
+  | .ok s => s!"super=0 idstage={showExc (idTableStage f s)}"
+
+def shortVerdict (f : Bytes) : String :=
+  match superRead f with
+  | .error e => s!"r{e}"
+  | .ok s => match idTableStage f s with
+    | .error e => s!"i{e}"
+    | .ok _ => "a"
+
+/-- the stub compressor of `harness/h_c14.c`: a run of ≥ 4 equal bytes `b` becomes `{b, len lo, len hi}` -/
+def stubCmp : Cmp := fun d =>
+  match d with
+  | [] => none
+  | b :: r => if d.length ≥ 4 ∧ r.all (· == b) then some [b, UInt8.ofNat (d.length % 256), UInt8.ofNat (d.length / 256 % 256)] else none
+
+structure St where
+  ops : List Op := []      -- reversed (log mode)
+  -- script mode
+  w : WState := {}
+  bw : BlockW := {}
+  sup : Super := {}
+  metas : List (Option MetaW) := [none, none, none, none]
+  open_ : Bool := false
+
+def rcOf (s : WState) : String :=
+  match s.err with
+  | none => "0"
+  | some e => s!"-{e}"
+
+def showOps (ops : List Op) : String :=
+  "ops " ++ String.join (ops.map fun o => match o with
+    | .pwrite off d => s!"W {off} {toHexTok d} ; "
+    | .ftruncate n => s!"T {n} ; ")
+
+def splitOn1 (s : String) (c : Char) : Option (String × String) :=
+  match s.splitOn (String.singleton c) with
+  | a :: b :: r => some (a, (String.singleton c).intercalate (b :: r))
+  | _ => none
+
+/-- the records `write_kv_pairs` / `write_id_table` produce for one-pair sets with key `user.<k>` (prefix id 0, no
+out-of-line values): the four appends per pair, and per set `{start_ref, count = 1, size}` where `start_ref` is
+`sqfs_meta_writer_get_position` before the set (tracked by running the model's metadata writer on a scratch state) -/
+def xattrInOf (pairs : List (String × String)) : XattrIn :=
+  let rec go (s : WState) (m : MetaW) : List (String × String) → List Bytes × List Bytes
+    | [] => ([], [])
+    | (k, v) :: r =>
+      let kb := k.toUTF8.toList
+      let vb := v.toUTF8.toList
+      let sz := 4 + kb.length + 4 + vb.length
+      let chunks := [le 2 0 ++ le 2 kb.length, kb, le 4 vb.length, vb]
+      let ref := (m.blockOffset <<< 16) ||| (m.data.length &&& 0xFFFF)
+      let sm := metaAppendAll stubCmp s m chunks
+      let rest := go sm.1 sm.2 r
+      (chunks ++ rest.1, (le 8 ref ++ le 4 1 ++ le 4 sz) :: rest.2)
+  let x := go {} {} pairs
+  { kv := x.1, idEntries := x.2 }
+
+def metaCmd (st : St) (i : Nat) (f : MetaW → WState × MetaW) : St × String :=
+  match st.metas.getD i none with
+  | none => (st, "bad-op")
+  | some m =>
+    let r := f m
+    ({ st with w := r.1, metas := st.metas.set i (some r.2) }, s!"rc={rcOf r.1} pos={r.2.blockOffset}:{r.2.data.length}")
+
+def scriptStep (st : St) (ws : List String) : Option (St × String) :=
+  match ws with
+  | ["init", bs, mt, c] =>
+    match bs.toNat?, mt.toNat?, c.toNat? with
+    | some bs, some mt, some c =>
+      if st.open_ then some (st, "bad-op") else
+      match superInit bs mt c with
+      | .error e => some ({ st with open_ := true, w := { err := some e } }, s!"rc=-{e}")
+      | .ok sup => some ({ st with open_ := true, sup := sup, w := fWrite {} 0 sup.encode, bw := {} }, "rc=0")
+    | _, _, _ => some (st, "bad-op")
+  | ["opts", h] =>
+    match fromHex h with
+    | some o =>
+      let r := writeOptions st.w o
+      let sup := if r.2 then { st.sup with flags := st.sup.flags ||| flagCompressorOptions } else st.sup
+      some ({ st with w := r.1, sup := sup }, if r.1.err.isSome then s!"ret={rcOf r.1}" else s!"ret={2 + o.length}")
+    | none => some (st, "bad-op")
+  | ["blk", fl, ck, h] =>
+    match fl.toNat?, ck.toNat?, fromHex h with
+    | some fl, some ck, some d =>
+      let r := writeDataBlock st.w st.bw ⟨d, fl, ck⟩
+      some ({ st with w := r.1, bw := r.2.1 }, s!"rc={rcOf r.1} loc={r.2.2}")
+    | _, _, _ => some (st, "bad-op")
+  | ["mnew", i, k] =>
+    match i.toNat?, k.toNat? with
+    | some i, some k => if i < 4 then some ({ st with metas := st.metas.set i (some { keep := k != 0 }) }, "ok") else some (st, "bad-op")
+    | _, _ => some (st, "bad-op")
+  | ["mapp", i, h] =>
+    match i.toNat?, fromHex h with
+    | some i, some d => some (metaCmd st i fun m => metaAppend stubCmp st.w m d)
+    | _, _ => some (st, "bad-op")
+  | ["mflush", i] => i.toNat?.map fun i => metaCmd st i fun m => metaFlush stubCmp st.w m
+  | ["mwrite", i] => i.toNat?.map fun i => metaCmd st i fun m => (metaWriteList st.w m.list, { m with list := [] })
+  | ["mreset", i] => i.toNat?.map fun i => metaCmd st i fun m => (st.w, { m with blockOffset := 0, data := [] })
+  | ["table", h] =>
+    match fromHex h with
+    | some d => let r := writeTable stubCmp st.w d; some ({ st with w := r.1 }, s!"rc={rcOf r.1} start={r.2}")
+    | none => some (st, "bad-op")
+  | ["idtable", l] =>
+    match (l.splitOn ",").mapM String.toNat? with
+    | some ids =>
+      let r := idTableWrite stubCmp st.w st.sup ids
+      some ({ st with w := r.1, sup := r.2 }, s!"rc={rcOf r.1} count={r.2.idCount} start={r.2.idStart}")
+    | none => some (st, "bad-op")
+  | ["fragtable", n, c] =>
+    match n.toNat?, c.toNat? with
+    | some n, some c =>
+      let ent (j : Nat) : Bytes := le 8 (96 + 100 * j) ++ le 4 (if c != 0 ∧ j + 1 = n then 77 else 77 ||| 2 ^ 24) ++ le 4 0
+      let payload := (List.range n).flatMap ent
+      let r := fragTableWrite stubCmp st.w st.sup payload (c != 0 && n != 0)
+      some ({ st with w := r.1, sup := r.2 }, s!"rc={rcOf r.1} start={r.2.fragStart} count={r.2.fragCount} flags={r.2.flags}")
+    | _, _ => some (st, "bad-op")
+  | ["export", inum, iref] =>
+    match inum.toNat?, iref.toNat? with
+    | some inum, some iref =>
+      let payload := leList 8 (List.replicate (inum - 1) unset ++ [iref])
+      let r := exportTableWrite stubCmp st.w st.sup (some payload)
+      some ({ st with w := r.1, sup := r.2 }, s!"rc={rcOf r.1} start={r.2.exportStart} flags={r.2.flags}")
+    | _, _ => some (st, "bad-op")
+  | ["xattr", l] =>
+    let pairs := if l = "-" then some [] else (l.splitOn ",").mapM fun p => splitOn1 p ':'
+    match pairs with
+    | some ps =>
+      let r := xattrFlush stubCmp st.w st.sup (xattrInOf ps)
+      some ({ st with w := r.1, sup := r.2 }, s!"rc={rcOf r.1} start={r.2.xattrStart} flags={r.2.flags}")
+    | none => some (st, "bad-op")
+  | ["final"] =>
+    let sup := { st.sup with bytesUsed := st.w.size }
+    let w := fWrite st.w 0 sup.encode
+    some ({ st with w := w, sup := sup }, if w.err.isSome then s!"rc={rcOf w}" else s!"rc=0 super={toHexTok sup.encode}")
+  | ["pad", b] =>
+    match b.toNat? with
+    | some b => let w := padd st.w st.sup.bytesUsed b; some ({ st with w := w }, s!"rc={rcOf w}")
+    | none => some (st, "bad-op")
+  | ["end"] => some ({ ops := st.ops }, showOps st.w.ops)
+  | _ => none
+
+def prefixVerdicts (ops : List Op) : List String :=
+  let rec go (f : Bytes) : List Op → List String
+    | [] => [shortVerdict f]
+    | o :: r => shortVerdict f :: go (o.apply f) r
+  go [] ops
+
+/-- `Spec.Writer.statusOf` at every crash point of a log: `R` rejected, `C` complete up to padding, `X` neither -/
+def monitorLog (ops : List Op) : List String :=
+  let full := image ops
+  let st (f : Bytes) : String := match Sqfs.Spec.Writer.statusOf f full with
+    | some true => "R" | some false => "C" | none => "X"
+  let rec go (f : Bytes) : List Op → List String
+    | [] => [st f]
+    | o :: r => st f :: go (o.apply f) r
+  go [] ops
+
+def step (st : St) (line : String) : St × String :=
+  match words line with
+  | ["verdict", h] => match fromHex h with
+      | some f => (st, verdictStr f)
+      | none => (st, "bad-op")
+  | ["head", h, n] => match fromHex h, n.toNat? with
+      | some hd, some sz => (st, verdictStr (hd.take sz ++ zeros (sz - hd.length)))
+      | _, _ => (st, "bad-op")
+  | ["prov", h] => match fromHex h with
+      | some p => (st, if isProvisional p then "1" else "0")
+      | none => (st, "bad-op")
+  | ["W", off, h] => match off.toNat?, fromHex h with
+      | some o, some d => ({ st with ops := .pwrite o d :: st.ops }, ".")
+      | _, _ => (st, "bad-op")
+  | ["T", n] => match n.toNat? with
+      | some l => ({ st with ops := .ftruncate l :: st.ops }, ".")
+      | none => (st, "bad-op")
+  | ["shape"] =>
+      let ops := st.ops.reverse
+      (st, if shapeCheck ops then s!"shape ok kfinal={kFinalOf ops} nops={ops.length}" else s!"shape bad nops={ops.length}")
+  | ["monitor"] => (st, "monitor " ++ "".intercalate (monitorLog st.ops.reverse))
+  | ["prefixes"] => (st, "prefixes " ++ " ".intercalate (prefixVerdicts st.ops.reverse))
+  | ["reset"] => ({}, "ok")
+  | ws => match scriptStep st ws with
+    | some r => r
+    | none => (st, "bad-op")
+
 def run (_args : List String) : IO Unit := do
-  IO.eprintln "sqfsmodel: model C14 not built yet"
+  stateLoop (← IO.getStdin) (← IO.getStdout) step {}
+
 end Driver.C14
